@@ -31,6 +31,9 @@ def configs(tier, seed):
         if tier == 'quick' and c['dim'] == 1 and not ((i + seed) % 3 == 0 or c['N'] <= 5):
             continue
         out.append(dict(c, mask=[]))
+    for mode in ('zero', 'periodization'):
+        out.append(dict(dim=1, wave='db2', mode=mode, J=2, N=9, B=1, C=2, mask=[], prelude='f32call'))
+        out.append(dict(dim=2, wave='db2', mode=mode, J=1, H=5, W=6, B=1, C=1, mask=[], prelude='f32call'))
     # None-level masks on a slice
     waves = ['db2', 'bior2.4'] if tier == 'quick' else ['haar', 'db2', 'db3', 'bior2.4', 'bior3.1', 'sym4']
     for w in waves:
@@ -61,6 +64,13 @@ def _sym_pyramid(cfg):
 
 def _inv(pw, cfg, yl, yh):
     m = D.make_module(pw, 'inv1' if cfg['dim'] == 1 else 'inv2', cfg)
+    if cfg.get('prelude') == 'f32call':
+        # the same instance was first handed a single-precision pyramid (accepted or rejected: the synthesis of the
+        # double-precision pyramid afterwards is still what PyWavelets returns)
+        try:
+            m((yl.detach().float(), [None if h is None else h.detach().float() for h in yh]))
+        except (RuntimeError, TypeError, ValueError):
+            pass
     return D.call_ctx(pw, cfg, lambda a: m((a[0], list(a[1:]))), [yl] + list(yh))
 
 
